@@ -452,7 +452,7 @@ def _offsets(widths):
 
 
 class DistanceAsDiscrepancy(Contract):
-    """layout = tuple over 's' (scalar summary: output (B,)) / 'v' (vector summary: output (B, w_t)), CONCRETE arity 1..3, symbolic B >= 1 and
+    """layout = tuple over 's' (scalar summary: output (B,)) / 'v' (vector summary: output (B, w_t)), CONCRETE arity 1..5, symbolic B >= 1 and
     widths >= 1.  Observed value of a scalar summary: shape (1,) or a 0-d scalar; of a vector summary: (1, w_t) or (w_t,) (forked).
     dist: 'cdist' = functools.partial(cdist, metric=<any str>, **extra) as built by Distance.__init__; 'fn1' / 'fn21' / 'fn22' = a user
     callable (or AdaptiveDistance.nested_distance) returning shape (B,) / (B,1) / (B,2)."""
@@ -1180,7 +1180,8 @@ CONTRACTS = [DistanceAsDiscrepancy('s'), DistanceAsDiscrepancy('v'), DistanceAsD
              DistanceInit('str', 2), DistanceInit('names', 1), DistanceInit('str', 0), DistanceInit('callable', 1),
              AdaptiveInit(2), AdaptiveInit(0), InitState(), InitRound(),
              AddData(True, 's'), AddData(False, 's'), AddData(True, 'sv'), AddData(False, 'sv'), AddData(False, 'vsv'),
-             UpdateDistance(1), UpdateDistance(2), NestedDistance(1), NestedDistance(2), NestedDistance(3),
+             DistanceAsDiscrepancy('svvs'), DistanceAsDiscrepancy('vssv', extra=('p', 'w')), DistanceAsDiscrepancy('sssvs'), AddData(True, 'vsvs'), AddData(False, 'svvs'),
+             UpdateDistance(1), UpdateDistance(2), UpdateDistance(3), UpdateDistance(4), NestedDistance(1), NestedDistance(2), NestedDistance(3), NestedDistance(4), NestedDistance(5),
              RejectionInit(3), RejectionInit(2), RejectionInit(2, adaptive=False), MergeBatchAdaptive(True), MergeBatchAdaptive(False),
              LemmaSumExt(), LemmaShiftLin(), LemmaShiftMom(), LemmaShiftMom0(), LemmaWeightedScaled(), LemmaWelford(), LemmaVariance()]
 
@@ -1198,15 +1199,15 @@ TRUSTED_BASE = ['pyvc engine: proxies, path forking, numpy spec table (column_st
 ASSUMPTIONS = ['A-REAL: floats are reals (the Welford update exists because they are not; only its real-number meaning is proved)',
                'A-INT: integers are mathematical',
                'summary outputs are (B,) or (B, w) arrays with a common batch size B >= 1; observed summaries have the matching width (shape (1,), 0-d, (1, w) or (w,))',
-               'add_data: the first batch of a round has k >= 1 rows (later batches may be empty); tuples of summaries of CONCRETE arity (1..3, listed layouts) with symbolic batch size and widths',
+               'add_data: the first batch of a round has k >= 1 rows (later batches may be empty); tuples of summaries of CONCRETE arity (1..5, listed layouts) with symbolic batch size and widths',
                'update_distance: every column of scale is non-zero (a constant summary column gives weight inf and NaN distances: the formula of the property is undefined there)',
                'Rejection.__init__/_merge_batch: concrete distance nodes with 2 and 3 parents; user output_names enumerated exhaustively (None, every ordered subset of the parent names, each also with an unrelated name); model, node and base-class __init__ are recording stubs; the non-adaptive part of _merge_batch runs on a minimal buffer and is specified in C01',
                'history quantifier: store_ok(N) is the inductive invariant of a round (established by init_adaptation_round with N = 0, preserved by every add_data); '
                'the induction over the calls of a round is the meta-argument, each step is an obligation',
                'an arbitrary column / row is a free constant of the VC (validity for it = validity for all columns / rows)']
-NOT_PROVED = ['"numbers and widths of summaries": widths and batch sizes are symbolic (all values), but the NUMBER of summaries is concrete per contract - proved for tuples of 1, 2 and 3 '
-              'summaries in the scalar/vector patterns s, v, ss, sv, vs, vsv (python tuples have no symbolic arity in the engine); larger arities are not decided',
-              '"all numbers of update rounds": update_distance is proved for 1 and 2 earlier distance functions and nested_distance for 1, 2 and 3 (the code appends to / iterates over a '
+NOT_PROVED = ['"numbers and widths of summaries": widths and batch sizes are symbolic (all values), but the NUMBER of summaries is concrete per contract - proved for tuples of 1 to 5 '
+              'summaries in the scalar/vector patterns s, v, ss, sv, vs, vsv, svvs, vssv, vsvs, sssvs (python tuples have no symbolic arity in the engine); other patterns and larger arities are not decided',
+              '"all numbers of update rounds": update_distance is proved for 1 to 4 earlier distance functions and nested_distance for 1 to 5 (the code appends to / iterates over a '
               'python list uniformly; a list of symbolic length is not modelled); more rounds are not decided',
               '"equals the chosen scipy metric": relative to the assumed cdist contract (row-wise pure function of XA[i], XB[j], metric and keyword arguments); the numerical formulas of the '
               'individual scipy metrics are not re-proved (euclidean closed form only, sanity-tested)']
